@@ -9,9 +9,14 @@ safe Rust programs against the real crate, plus the direct oracle of property C0
   closure, a claim guard, a pool guard, as_scope / as_mut_scope / by_value views, a `&Bump` through the
   scope traits) x every escape route of the property text (return from the closure, store in an outer
   variable, hold across guard drop / guard reset / second scope() / reset / reset_to_start / drop of the
-  Bump / exclusive reborrow + reset / pool reset / pool drop, move to a thread with a base allocator that
-  is not Send) ONE PROGRAM THAT MUST NOT COMPILE and a minimally different control that must; plus every
-  settings conversion with single-field (and a few combined) changes.
+  Bump / exclusive reborrow + reset / scoped(..) / pool reset / pool drop, move to a thread with a base allocator
+  that is not Send) ONE PROGRAM THAT MUST NOT COMPILE and a minimally different control that must; the same for
+  `&mut Bump` used as a scope-trait value and as the allocator of the collections (`MutBumpVec::new_in(&mut bump)`,
+  `BumpVec::new_in(&mut bump)`, … `into_slice()` / `into_boxed_slice()` / `into_str()`); plus every settings
+  conversion with single-field (and a few combined) changes.
+
+  If the signature extraction fails (`TRANSLATE-ERROR`), the corpus is generated from — and the calculus' checker
+  uses — the last good `Gen/Sigs.lean`, so that a changed signature still shows up as a program that compiles.
 
   verdicts compared:   calculus' checker  ==  rustc        (else: ctx.disagreements)
   direct oracle:       a program that must be rejected (an escape by construction / a weakening conversion)
@@ -189,6 +194,7 @@ class Case:
         self.id, self.expected, self.prog, self.conv = cid, expected, prog, conv
         self.route, self.producer, self.context, self.emit = route, producer, context, emit
         self.tag = None    # known-finding tag (message prefix)
+        self.ends = getattr(prog, "ends", True) if prog is not None else True
 
 def producers_of(table, owner):
     """alloc-class methods of an owner, as (name, recv)"""
@@ -206,11 +212,13 @@ def producers_of(table, owner):
 # invalidate them and their implicit drop at the end of `main` would then be an error of its own); `consumed` are the
 # variables the event itself moves or drops.  `objs` are the context's variables with drop glue, in declaration order.
 
-def ev(name, run, pre=(), consumed=()):
+def ev(name, run, pre=(), consumed=(), tag=None, ends=True):
+    """`tag`: message prefix of a recorded finding the escape belongs to if the compiler accepts it; `ends`: does the event
+    really end the value's memory epoch (else it only has to be rejected because the borrow rules say so)"""
     def wrapped():
         r = run()
         return list(r) if isinstance(r, (list, tuple)) else []
-    return dict(name=name, run=wrapped, pre=list(pre), consumed=list(consumed))
+    return dict(name=name, run=wrapped, pre=list(pre), consumed=list(consumed), tag=tag, ends=ends)
 
 def ctx_bump(P):
     b = P.new_bump()
@@ -220,6 +228,7 @@ def ctx_bump(P):
         ev("reset", lambda: P.call(b, "Bump", "reset")), ev("reset_to_start", lambda: P.call(b, "Bump", "reset_to_start")),
         ev("drop-bump", lambda: P.drop(b), consumed=[b]), ev("reborrow-mut+reset", reborrow_reset),
         ev("scope_guard", lambda: [P.call(b, "Bump", "scope_guard")]),
+        ev("scoped(..)", lambda: (P.enter(b, "Bump", "scoped"), P.exit(None)) and None, ends=False),
         ev("with_settings(self)", lambda: [P.call(b, "Bump", "with_settings", ann="Bump<A>")], consumed=[b])],
         keepers=[ev("stats", lambda: P.use(P.call(b, "Bump", "stats"))), ev("as_scope", lambda: P.call(b, "Bump", "as_scope"))])
 
@@ -281,6 +290,21 @@ def ctx_trait_ref(P):
     return dict(h=r, owner="BumpAllocatorTypedScope", mut=False, objs=[b], enders=[
         ev("reset", lambda: P.call(b, "Bump", "reset")), ev("drop-bump", lambda: P.drop(b), consumed=[b])], keepers=[])
 
+REFMUT_TAG = "REFMUT-BUMP-CORESCOPE"
+
+def ctx_refmut(P):
+    """a `&mut Bump` used as a scope-trait value / as the allocator of a collection.  Events through the reference itself are
+    where the recorded finding C04-a lives (the trait-level `alloc*(&self) -> BumpBox<'a, _>` is not tied to the `&self` borrow)"""
+    b = P.new_bump()
+    bm = P.call(b, "Bump", "borrow_mut_with_settings", ann="&mut Bump<A>")
+    return dict(h=bm, owner="BumpAllocatorTypedScope", mut=True, objs=[b], enders=[
+        ev("reset(through the &mut)", lambda: P.call(bm, "Bump", "reset"), tag=REFMUT_TAG),
+        ev("reset_to_start(through the &mut)", lambda: P.call(bm, "Bump", "reset_to_start"), tag=REFMUT_TAG),
+        ev("scoped(..)(through the &mut)", lambda: (P.enter(bm, "Bump", "scoped"), P.exit(None)) and None, tag=REFMUT_TAG, ends=False),
+        ev("reset", lambda: P.call(b, "Bump", "reset")), ev("reset_to_start", lambda: P.call(b, "Bump", "reset_to_start")),
+        ev("scoped(..)", lambda: (P.enter(b, "Bump", "scoped"), P.exit(None)) and None, ends=False),
+        ev("drop-bump", lambda: P.drop(b), consumed=[b])], keepers=[])
+
 LINEAR_CONTEXTS = [
     ("bump", ctx_bump), ("guard", ctx_guard), ("guard.by_value", lambda P: ctx_guard(P, "by_value")),
     ("guard.borrow_with_settings", lambda P: ctx_guard(P, "borrow")), ("guard.borrow_mut_with_settings", lambda P: ctx_guard(P, "borrow_mut")),
@@ -288,8 +312,8 @@ LINEAR_CONTEXTS = [
     ("claim", ctx_claim), ("guard.claim", lambda P: ctx_claim(P, True)), ("pool", ctx_pool), ("&Bump(trait)", ctx_trait_ref),
 ]
 
-def escape_and_control(table, mk, i, produce, which="enders"):
-    """(escape program, control program) for event number i of a context; `produce(P, c)` makes the value"""
+def escape_and_control_ev(table, mk, i, produce, which="enders"):
+    """(event, escape program, control program) for event number i of a context; `produce(P, c)` makes the value"""
     P = Prog(table); c = mk(P); x = produce(P, c); e = c[which][i]; e["run"](); P.use(x)
     Q = Prog(table); c = mk(Q); x = produce(Q, c); e = c[which][i]; Q.use(x); Q.drop(x)
     for v in reversed(c["objs"]):
@@ -297,6 +321,11 @@ def escape_and_control(table, mk, i, produce, which="enders"):
     new = e["run"]()
     rest = [v for v in c["objs"] if v not in e["pre"] and v not in e["consumed"]] + new
     for v in reversed(rest): Q.drop(v)
+    return e, P, Q
+
+def escape_and_control(table, mk, i, produce, which="enders"):
+    e, P, Q = escape_and_control_ev(table, mk, i, produce, which)
+    P.ends = Q.ends = e["ends"]
     return e["name"], P, Q
 
 def keeper(table, mk, i, produce):
@@ -375,12 +404,14 @@ def gen_closures(table, cases):
         cases.append(Case(f"{cname}/{m}/outer-value-survives-inner-scope/keeps", "accept", P, route="inner-scope", producer=m, context=cname))
 
 def gen_collections(table, cases):
-    colls = [("BumpVec", "shr"), ("BumpString", "shr"), ("MutBumpVec", "mut"), ("MutBumpVecRev", "mut"), ("MutBumpString", "mut")]
+    colls = [("BumpVec", "shr"), ("BumpString", "shr"), ("MutBumpVec", "mut"), ("MutBumpVecRev", "mut"), ("MutBumpString", "mut"),
+             ("BumpVec", "mut"), ("BumpString", "mut")]       # the last two: `BumpVec::new_in(&mut bump)`
     for ty, mode in colls:
+        mtag = "(&mut)" if (mode == "mut" and not ty.startswith("Mut")) else ""
         for (o, n), s in sorted(table.items()):
             if o != ty: continue
             produce = lambda P, c, ty=ty, mode=mode, n=n: P.call(P.coll(c["h"], mode, ty), ty, n)
-            for cname, mk in (("bump", ctx_bump), ("guard", ctx_guard)):
+            for cname, mk in (("bump" + mtag, ctx_bump), ("guard" + mtag, ctx_guard), ("&mut Bump" + mtag, ctx_refmut)):
                 probe = mk(Prog(table))
                 for i in range(len(probe["enders"])):
                     name, P, Q = escape_and_control(table, mk, i, produce)
@@ -388,9 +419,9 @@ def gen_collections(table, cases):
                     cases.append(Case(f"{ty}.{n}@{cname}/{name}/control", "accept", Q, route=name, producer=f"{ty}::{n}", context=cname + "+collection"))
             # out of a scoped closure
             P = Prog(table); b = P.new_bump(); s = P.enter(b, "Bump", "scoped"); v = P.coll(s, mode, ty); y = P.call(v, ty, n); x = P.exit(y); P.use(x)
-            cases.append(Case(f"{ty}.{n}@scoped/return/escape", "reject", P, route="return-from-closure", producer=f"{ty}::{n}", context="Bump::scoped+collection"))
+            cases.append(Case(f"{ty}{mtag}.{n}@scoped/return/escape", "reject", P, route="return-from-closure", producer=f"{ty}::{n}", context="Bump::scoped+collection"))
             P = Prog(table); b = P.new_bump(); s = P.enter(b, "Bump", "scoped"); v = P.coll(s, mode, ty); y = P.call(v, ty, n); P.use(y); P.drop(y); P.exit(None); P.drop(b)
-            cases.append(Case(f"{ty}.{n}@scoped/return/control", "accept", P, route="return-from-closure", producer=f"{ty}::{n}", context="Bump::scoped+collection"))
+            cases.append(Case(f"{ty}{mtag}.{n}@scoped/return/control", "accept", P, route="return-from-closure", producer=f"{ty}::{n}", context="Bump::scoped+collection"))
 
 def gen_handles(table, cases):
     """the handles themselves must not outlive what they borrow"""
@@ -472,25 +503,21 @@ def gen_threads(table, cases):
             add(f"send-value-{m}-after-reset/{tag}", "reject", P, "reset")
 
 def gen_known(table, cases):
-    """C04-a: the `&'a mut Bump` implementor of BumpAllocatorCoreScope (see lifecases/findings/c04a_refmut_bump.rs)"""
-    for m in ("alloc", "alloc_str", "alloc_iter", "alloc_fmt"):
-        P = Prog(table); b = P.new_bump(); bm = P.call(b, "Bump", "borrow_mut_with_settings", ann="&mut Bump<A>")
-        x = P.call(bm, "BumpAllocatorTypedScope", m); P.call(bm, "Bump", "reset"); P.use(x)
-        c = Case(f"&mut Bump(trait)/{m}/reset/escape", "reject", P, route="reset", producer=m, context="&mut Bump(trait)"); c.tag = "REFMUT-BUMP-CORESCOPE"
-        cases.append(c)
-        P = Prog(table); b = P.new_bump(); bm = P.call(b, "Bump", "borrow_mut_with_settings", ann="&mut Bump<A>")
-        x = P.call(bm, "BumpAllocatorTypedScope", m); P.use(x); P.drop(x); P.call(bm, "Bump", "reset"); P.drop(b)
-        cases.append(Case(f"&mut Bump(trait)/{m}/reset/control", "accept", P, route="reset", producer=m, context="&mut Bump(trait)"))
-    for m in ("alloc_iter_mut", "alloc_fmt_mut"):
-        P = Prog(table); b = P.new_bump(); bm = P.call(b, "Bump", "borrow_mut_with_settings", ann="&mut Bump<A>")
-        x = P.call(bm, "MutBumpAllocatorTypedScope", m); P.call(bm, "Bump", "reset"); P.use(x)
-        c = Case(f"&mut Bump(trait)/{m}/reset/escape", "reject", P, route="reset", producer=m, context="&mut Bump(trait)"); c.tag = "REFMUT-BUMP-CORESCOPE"
-        cases.append(c)
-    # the consuming use of the same impl is fine: a MutBumpVec over `&mut Bump` gives up the reference
-    P = Prog(table); b = P.new_bump(); v = P.coll(b, "mut"); x = P.call(v, "MutBumpVec", "into_boxed_slice"); P.use(x); P.drop(x); P.call(b, "Bump", "reset"); P.drop(b)
-    cases.append(Case("MutBumpVec(&mut Bump)/into_boxed_slice/reset/control", "accept", P, route="reset", producer="MutBumpVec::into_boxed_slice", context="&mut Bump(trait)"))
-    P = Prog(table); b = P.new_bump(); v = P.coll(b, "mut"); x = P.call(v, "MutBumpVec", "into_boxed_slice"); P.call(b, "Bump", "reset"); P.use(x)
-    cases.append(Case("MutBumpVec(&mut Bump)/into_boxed_slice/reset/escape", "reject", P, route="reset", producer="MutBumpVec::into_boxed_slice", context="&mut Bump(trait)"))
+    """trait-level `alloc*` on a `&mut Bump` (the `&'a mut Bump` implementor of BumpAllocatorCoreScope) held across every event.
+    The escapes through the reference itself are the recorded finding C04-a (lifecases/findings/c04a_refmut_bump.rs); every other
+    accepted escape of this family is a violation of its own."""
+    ctxn = "&mut Bump(trait)"
+    prods = [("BumpAllocatorTypedScope", m) for m, _ in producers_of(table, "BumpAllocatorTypedScope")] + \
+            [("MutBumpAllocatorTypedScope", m) for m, _ in producers_of(table, "MutBumpAllocatorTypedScope")]
+    n_end = len(ctx_refmut(Prog(table))["enders"])
+    for owner, m in prods:
+        produce = lambda P, c, owner=owner, m=m: P.call(c["h"], owner, m)
+        for i in range(n_end):
+            e, P, Q = escape_and_control_ev(table, ctx_refmut, i, produce)
+            c = Case(f"{ctxn}/{m}/{e['name']}/escape", "reject", P, route=e["name"], producer=m, context=ctxn)
+            c.tag, c.ends = e["tag"], e["ends"]
+            cases.append(c)
+            cases.append(Case(f"{ctxn}/{m}/{e['name']}/control", "accept", Q, route=e["name"], producer=m, context=ctxn))
 
 # ---- settings conversions
 
@@ -562,12 +589,12 @@ def build_corpus(table, thorough):
         ids.add(c.id)
     return cases
 
-def select(cases, quick, seed, budget=420):
+def select(cases, quick, seed, budget=520):
     """quick tier: all handle / known-finding cases, a capped sample of thread and settings cases, and a stratified
     sample (round robin over (context, route) strata, escape + control kept together) of the producer x route product"""
     if not quick: return cases
     rng = random.Random(seed)
-    fixed = [c for c in cases if c.context in ("handles", "&mut Bump(trait)")]
+    fixed = [c for c in cases if c.context == "handles"]
     def capped(ctx_name, cap, key):
         cs = [c for c in cases if c.context == ctx_name]
         groups = collections.defaultdict(list)
@@ -580,6 +607,14 @@ def select(cases, quick, seed, budget=420):
         return out
     fixed += capped("threads", 40, lambda c: c.route)
     fixed += capped("settings", 44, lambda c: (c.producer, c.route))
+    # the `&mut Bump` family: every route, escape and control together, a few producers each
+    fam = collections.defaultdict(list)
+    for c in cases:
+        if c.context == "&mut Bump(trait)": fam[(c.route, c.id.rsplit("/", 1)[0])].append(c)
+    by_route = collections.defaultdict(list)
+    for (route, _), g in sorted(fam.items()): by_route[route].append(g)
+    for route in sorted(by_route):
+        for g in rng.sample(by_route[route], min(4, len(by_route[route]))): fixed += g
     rest = [c for c in cases if c.context not in ("handles", "&mut Bump(trait)", "threads", "settings")]
     groups = collections.defaultdict(list)
     for c in rest: groups[c.id.rsplit("/", 1)[0]].append(c)
@@ -759,18 +794,41 @@ def run_checker(ctx, cases):
 
 # ------------------------------------------------------------------------------------------------
 
-def load_table():
-    sigs, impls, asserts, convs, structs, autos, drops = sigs2lean.extract(REPO)
-    return {(s.owner, s.name): s for s in sigs}
+SIG_LINE = re.compile(r'^\s*⟨"([^"]+)", "([^"]+)", \.(\w+), \.(\w+), \.(\w+), \.(\w+), \[([^\]]*)\], \[([^\]]*)\], "([^"]*)"⟩,?\s*$')
+
+def table_from_generated():
+    """the signature table of the LAST GOOD extraction, read back from lean/BumpProof/Gen/Sigs.lean"""
+    path = os.path.join(LEAN, "BumpProof", "Gen", "Sigs.lean")
+    table = {}
+    def lts(txt):
+        return [w.strip().lstrip("(.").split()[0].rstrip(")").replace("static_", "static") for w in txt.split(",") if w.strip()]
+    for l in open(path):
+        m = SIG_LINE.match(l)
+        if m:
+            owner, name, _ok, _op, recv, ret, a, b, src = m.groups()
+            table[(owner, name)] = sigs2lean.Sig(owner, name, recv, ret, lts(a), lts(b), src, 0)
+    if len(table) < 100: raise RuntimeError(f"{path}: only {len(table)} signatures could be read back")
+    return table
+
+def load_table(ctx=None):
+    try:
+        sigs, impls, asserts, convs, structs, autos, drops = sigs2lean.extract(REPO)
+        return {(s.owner, s.name): s for s in sigs}
+    except sigs2lean.TErr as e:
+        # the sources left the shapes the extractor knows: keep deciding programs with the last good table
+        if ctx is not None:
+            ctx.notes.append(f"signature extraction failed (TRANSLATE-ERROR {e}); the corpus is generated from the last good Gen/Sigs.lean "
+                             "and the calculus' checker uses that table")
+        return table_from_generated()
 
 def run_life(ctx, budget=None):
     """generate, compile, check, compare.  Returns True if the engine ran."""
     try:
-        table = load_table()
-    except sigs2lean.TErr as e:
-        ctx.add_ob("run:life-corpus", "build", False, f"TRANSLATE-ERROR {e}"); return False
+        table = load_table(ctx)
+    except Exception as e:
+        ctx.add_ob("run:life-corpus", "build", False, f"no signature table: {e}"); return False
     thorough = not ctx.quick()
-    cases = select(build_corpus(table, thorough), ctx.quick(), ctx.seed, budget or 420)
+    cases = select(build_corpus(table, thorough), ctx.quick(), ctx.seed, budget or 520)
     d, libs = build_skeleton(ctx)
     if not d: return False
     if not run_checker(ctx, cases): return False
@@ -797,7 +855,7 @@ def run_life(ctx, budget=None):
             elif len([f for f in ctx.oracle_failures if not f.get("known")]) < 20:
                 ctx.oracle_failures.append(rec)
             # the checker follows the table as it is, so it accepts too; then its run must exhibit the fault
-            if c.model == "accept" and c.prog and "fault" not in c.model_detail:
+            if c.model == "accept" and c.prog and c.ends and "fault" not in c.model_detail:
                 rec2 = dict(rec); rec2["what"] = "rustc and the checker accept an escape, but the calculus run shows no fault (model too weak)"
                 ctx.disagreements.append(rec2)
             continue
